@@ -206,7 +206,9 @@ def main():
         "version": 1,
         "setup_cmd": ("/venv/bin/python -c 'import hypothesis, jsonschema' 2>/dev/null || /venv/bin/pip install --no-index "
                       "--find-links /opt/veriftools/wheels hypothesis jsonschema >/dev/null 2>&1; "
-                      "/venv/bin/python -c 'import hypothesis, jsonschema, yaml, semantiva'"),
+                      "PYTHONPATH=.deps /venv/bin/python -c 'import atheris' 2>/dev/null || /venv/bin/pip install --no-index "
+                      "--find-links /opt/veriftools/wheels --target .deps atheris >/dev/null 2>&1; "
+                      "/venv/bin/python -c 'import hypothesis, jsonschema, yaml, semantiva' && PYTHONPATH=.deps /venv/bin/python -c 'import atheris'"),
         "hooks": {
             "guard": "SEMANTIVA_VERIF",
             "enable": "no source hooks exist: all observation goes through public injection points (custom transport, "
